@@ -340,6 +340,14 @@ PERT = 1.0 + 1e-14
 KCOND = 10000.0
 
 
+def abs_tol(ps, st0, rain):
+    """absolute tolerance of the float comparisons: 1e-12 of the scale of the water amounts in play
+    (capacities, initial stores, largest daily rain).  Needed because some formulas of the code lose
+    significance for small arguments (GR4J Perc = S*(1-(1+z)^(-1/4)) with z ~ 1e-8 is only good to
+    S*1e-16/z relative), so two correct libms differ by ~1e-16 * scale in absolute terms."""
+    return 1e-12 * (1.0 + max([abs(p) for p in ps] + [0.0]) + max([abs(v) for v in st0] + [0.0]) + max(list(rain) + [0.0]))
+
+
 def perturb_case(model, ps, rain, pet):
     ps2 = [p * PERT for p in ps]
     if model == 'GR4J':
